@@ -23,6 +23,7 @@ pub struct Shim {
     mark: Option<unsafe extern "C" fn(*const libc::c_char)>,
     arm: Option<unsafe extern "C" fn(libc::c_int, libc::c_int, libc::c_int, libc::c_long)>,
     disarm: Option<unsafe extern "C" fn()>,
+    fired: Option<unsafe extern "C" fn() -> libc::c_int>,
 }
 
 impl Shim {
@@ -41,6 +42,7 @@ impl Shim {
                 mark: f("jshim_mark").map(|p| std::mem::transmute(p)),
                 arm: f("jshim_arm").map(|p| std::mem::transmute(p)),
                 disarm: f("jshim_disarm").map(|p| std::mem::transmute(p)),
+                fired: f("jshim_fired").map(|p| std::mem::transmute(p)),
             }
         }
     }
@@ -56,6 +58,17 @@ impl Shim {
             true
         } else {
             false
+        }
+    }
+    /// what the armed fault has done so far: nothing, a short write without error, an error returned
+    pub fn fired(&self) -> &'static str {
+        match self.fired {
+            Some(f) => match unsafe { f() } {
+                0 => "none",
+                1 => "short",
+                _ => "err",
+            },
+            None => "noshim",
         }
     }
     pub fn disarm(&self) {
@@ -328,6 +341,8 @@ impl Env {
                     // the used part of the file as it is before this commit
                     self.snapshot_used(&format!("{}/pre-{}.img", dir, seq));
                 }
+                // notes describe one commit: whatever an earlier, unobserved commit left is dropped
+                NOTES.with(|n| n.borrow_mut().clear());
                 self.shim.mark(&format!("commit-begin {} {}", seq, t));
                 let r = catch_unwind(AssertUnwindSafe(|| (*tx).commit()));
                 self.shim.disarm();
@@ -598,6 +613,7 @@ impl Env {
                     "noshim".into()
                 }
             }
+            "fired" => self.shim.fired().to_string(),
             "limit" => {
                 // limit <bytes|inf>: RLIMIT_FSIZE, with SIGXFSZ ignored so that extension fails with EFBIG
                 unsafe {
